@@ -399,14 +399,19 @@ class FakeSnowflakeCursor:
         if self._arrow_table is None:
             # mimic snowflake python connector error type
             raise TypeError("No open result set")
-        tslice = self._arrow_table.slice(offset=self._arrow_table_fetch_index or 0, length=size).to_pylist()
+        tslice = self._arrow_table.slice(offset=self._arrow_table_fetch_index or 0, length=size)
 
         if self._arrow_table_fetch_index is None:
             self._arrow_table_fetch_index = size
         else:
             self._arrow_table_fetch_index += size
 
-        return tslice if self._use_dict_result else [tuple(d.values()) for d in tslice]
+        if self._use_dict_result:
+            return tslice.to_pylist()
+
+        # build tuples from the columns rather than from per-row dicts, which merge columns with the same name
+        columns = [col.to_pylist() for col in tslice.columns]
+        return [tuple(col[i] for col in columns) for i in range(tslice.num_rows)]
 
     def get_result_batches(self) -> list[ResultBatch] | None:
         if self._arrow_table is None:
